@@ -947,6 +947,21 @@ class Paths:
                     return [([], [], err(_from(r[2][0], key[2])))]
                 return [([], [], err(("errpayload", r)))]
             return None
+        if name == "contains" and "ops::range::Range" in path and len(args) == 2:
+            # `(a..b).contains(&x)` / `(a..=b).contains(&x)` over a range built on the spot: the two comparisons it stands for
+            r_ = strip_refs(raw(0))
+            x_ = strip_refs(A(1))
+            if r_[0] == "agg" and isinstance(r_[1], str) and len(r_[2]) >= 2:
+                kind_ = r_[1].split("::")[-1]
+                lo_, hi_ = self._val(st, r_[2][0]), self._val(st, r_[2][1])
+                unsigned_ = any(isinstance(g_, str) and g_ in ("usize", "u8", "u16", "u32", "u64", "u128") for g_ in key[2])
+                if kind_ == "Range" and unsigned_ and lo_ == ("const", 0):
+                    return [([], [], mk_bin("Lt", x_, hi_))]       # 0 <= x holds for every unsigned x
+                if kind_ == "Range":
+                    return [([], [], mk_bin("BitAnd", mk_bin("Le", lo_, x_), mk_bin("Lt", x_, hi_)))]
+            if r_[0] == "call" and r_[1].endswith("RangeInclusive::<Idx>::new") and len(r_[3]) == 2:
+                lo_, hi_ = self._val(st, r_[3][0]), self._val(st, r_[3][1])
+                return [([], [], mk_bin("BitAnd", mk_bin("Le", lo_, x_), mk_bin("Le", x_, hi_)))]
         if name in ("checked_sub", "checked_add") and path.startswith("core::num::<impl u") and len(args) == 2:
             # unsigned checked arithmetic is the case split it stands for: `a.checked_sub(b)` is Some(a - b) iff b <= a;
             # `a.checked_add(b)` is Some(a + b) iff a + b fits the type
